@@ -125,12 +125,27 @@ pub fn build(seed: u64, case: u64, tag: &str) -> Scenario {
             w.mutate(&mut rng, 3);
         }
         Prior::TwoComplete => {
+            // /zrevert: content A at time T1 in the first version, longer content B at T2 in the
+            // second, and in the source now content C with the size and mtime it had in the first
+            // (a file put back from an old copy): changed with respect to the newest version, and
+            // indistinguishable by size and mtime from the one before
+            let revert = |w: &mut World, content: &[u8], t: i64| {
+                let mut spec = w.spec.clone();
+                spec.retain(|p, _| !p.starts_with("/zrevert/"));
+                let mut n = crate::tree::Node::file(content.to_vec());
+                n.mtime_s = t;
+                spec.insert("/zrevert".into(), n);
+                w.set_spec(spec);
+            };
+            revert(&mut w, &[b'A'; 70], 1_590_000_000);
             let r = w.backup(crate::history::random_opts(&mut rng));
             assert!(r.backup.as_ref().unwrap().ok(), "prior backup failed");
             w.mutate(&mut rng, 3);
+            revert(&mut w, &[b'B'; 85], 1_590_000_500);
             let r = w.backup(opts);
             assert!(r.backup.as_ref().unwrap().ok(), "prior backup failed");
             w.mutate(&mut rng, 4);
+            revert(&mut w, &[b'C'; 70], 1_590_000_000);
         }
     }
     // make sure the new source has small files (combined blocks) and a multi-block file
